@@ -57,6 +57,11 @@ impl CP6_782 {
     fn ate_miller_loop(p: &G1Prepared, q: &G2Prepared) -> Fq6 {
         let p = p.0;
         let q = q.0;
+        // A pairing with the point at infinity is the identity of the target group;
+        // the affine formulas below cannot be evaluated on it.
+        if p.infinity || q.infinity {
+            return Fq6::one();
+        }
 
         let px = p.x;
         let py = p.y;
